@@ -253,8 +253,8 @@ def check(run):
                 body = "fn conv(x: %s) -> int32 { let y: %s = x; 0 }\n" % (a, b)
             else:
                 body = "fn want(y: %s) -> int32 { 0 }\nfn conv(x: %s) -> int32 { want(x) }\n" % (b, a)
-            if b.startswith("dyn ") and form != "arg":
-                continue  # an annotated let / result position may coerce a value to a trait object
+            if b.startswith("dyn ") and a == "int32":
+                continue  # int32 implements both traits: a value is coerced to the trait object wherever one is expected
             u_srcs.append(UHEAD + body + "fn main() { () }\n")
             u_why.append("a value of type %s where %s is expected (%s)" % (a, b, form))
         for use, need in USES:
